@@ -149,20 +149,26 @@ func hasEdgeTop(s rsel) bool {
 }
 
 func replaceEdges(s rsel, repl rsel) rsel {
+	done := false
+	return replaceEdgesOnce(s, repl, &done)
+}
+
+// All edges met in one step — in one union or in unions nested inside it — stand for the same sequence at the
+// same position, and a union is idempotent: the sequence is substituted for the first edge, the others drop out.
+// (Substituting per edge denotes the same walk but doubles the selector at every level: with the deeper recursion
+// limits of the thorough tier the reference itself took longer than twenty minutes on three cases.)
+func replaceEdgesOnce(s rsel, repl rsel, done *bool) rsel {
 	switch x := s.(type) {
 	case rEdge:
+		if *done {
+			return nil
+		}
+		*done = true
 		return repl
 	case rUnion:
 		var ms []rsel
-		edgeDone := false
 		for _, m := range x.members {
-			if _, isEdge := m.(rEdge); isEdge {
-				if edgeDone {
-					continue // several edges of one union stand for the same sequence
-				}
-				edgeDone = true
-			}
-			if r := replaceEdges(m, repl); r != nil {
+			if r := replaceEdgesOnce(m, repl, done); r != nil {
 				ms = append(ms, r)
 			}
 		}
